@@ -129,6 +129,10 @@ pub struct RefWriter<'a> {
     pub ch: &'a mut Choices,
     out: Vec<u8>,
     base: usize,
+    /// NOT legal PDF, used by C08 only: every object stream of a revision also carries a copy
+    /// (with container-specific content) of one "ghost" object number that no cross-reference
+    /// entry names, so that copies exist for which no container is designated
+    pub ghost_objects: bool,
 }
 
 fn is_regular(c: u8) -> bool {
@@ -137,7 +141,7 @@ fn is_regular(c: u8) -> bool {
 
 impl<'a> RefWriter<'a> {
     pub fn new(ch: &'a mut Choices) -> RefWriter<'a> {
-        RefWriter { ch, out: vec![], base: 0 }
+        RefWriter { ch, out: vec![], base: 0, ghost_objects: false }
     }
     fn pos(&self) -> usize {
         self.out.len() - self.base
@@ -652,6 +656,14 @@ impl<'a> RefWriter<'a> {
                 self.ch.rng.shuffle(&mut order);
             }
             let use_objstm = style == XrefStyle::Stream && objstm && self.ch.maybe("object-streams", 3, 4);
+            let ghost: Option<u32> = if self.ghost_objects && use_objstm {
+                let g = next_free_num;
+                next_free_num += 1;
+                w.container_ids.insert(g);
+                Some(g)
+            } else {
+                None
+            };
             let mut cur: Vec<u32> = vec![];
             for id in &order {
                 let o = &rev.objects[id];
@@ -723,6 +735,11 @@ impl<'a> RefWriter<'a> {
                             self.base = base;
                             bodies.push(sub_out);
                         }
+                        let mut nums = nums;
+                        if let Some(g) = ghost {
+                            nums.push(g);
+                            bodies.push(format!("(ghost copy in container {})", sid).into_bytes());
+                        }
                         let mut data_part: Vec<u8> = vec![];
                         let mut offs: Vec<usize> = vec![];
                         for b in &bodies {
@@ -758,7 +775,9 @@ impl<'a> RefWriter<'a> {
                         let off = self.indirect((sid, 0), &RObj::Stream(d, enc), None);
                         ents.insert(sid, Ent::InUse(off, 0));
                         for (k, n) in nums.iter().enumerate() {
-                            ents.insert(*n, Ent::Compressed(sid, k));
+                            if Some(*n) != ghost {
+                                ents.insert(*n, Ent::Compressed(sid, k));
+                            }
                         }
                     }
                 }
